@@ -11,6 +11,7 @@ import WuffsVerif.Proof.WCoreStmt
 import WuffsVerif.Proof.WCoreNoRec
 import WuffsVerif.Proof.WCoreHist
 import WuffsVerif.Gen.C01_Tables
+import WuffsVerif.Model.WCore.IOTable
 
 namespace WuffsVerif.Props.C01
 open WuffsVerif.Interval WuffsVerif.WCore WuffsVerif.Proof.WCoreBounds WuffsVerif.Proof.WCoreStmt
@@ -48,6 +49,21 @@ theorem ideal_table :
 theorem bitmask_table :
     WuffsVerif.Gen.C01.bitMasks.all (fun r => bitMaskN r.1 == r.2) = true := by
   decide
+
+/--
+**io_advance_table** (pre-conditions of the unchecked peek / poke / write_fast built-ins,
+`ioMethodAdvances` in bounds.go, regenerated from the working tree on every run): for
+every method the number of bytes the checker demands as a `length() >= n` fact before
+the call is exactly the number of bytes the method's name says it accesses
+(`width / 8`, which is what the helper in internal/cgen/base reads or writes without a
+bounds check; one token for the two token-writer methods), only the `write_*_fast`
+methods consume them, and the table has all 57 rows.  A row that demands fewer bytes (e.g. 6 for `peek_u56le_as_u64`) breaks this.
+-/
+theorem io_advance_table :
+    WuffsVerif.Gen.C01.ioMethodAdvances.all (fun r =>
+      ioAdvanceSpec r.1 == some (r.2.1, r.2.2)) = true ∧
+    WuffsVerif.Gen.C01.ioMethodAdvances.length = 57 := by
+  decide +kernel
 
 /-- The bounds the checker derives for a (refined) type are exactly the values of
 that type: `bcheckTypeExpr1` is sound and complete for `inType`. -/
